@@ -863,6 +863,18 @@ func (f *Flow) summarize(fn *ssa.Function) (map[int]AtomSet, map[int]AtomSet) {
 						s = f.close(s.union(sum))
 					}
 				}
+				// `return cond` is `if cond { return true }; return false`: the
+				// facts that hold when the returned condition is true
+				if _, isConst := rv.(*ssa.Const); !isConst {
+					if _, isPhi := rv.(*ssa.Phi); !isPhi {
+						g, gs := f.condGen(f.matcherFor(fn), rv)
+						s = s.with(g[0]...)
+						if s2, dead := f.applySums(s, gs[0]); !dead {
+							s = s2
+						}
+						s = f.close(s)
+					}
+				}
 				acc = acc.meet(s.exported())
 			}
 			st[i] = acc
